@@ -78,6 +78,13 @@ P = {
         "rss_mb": 2500,
         "single_timeout": 240,
     },
+    "C03": {
+        "runs": {"quick": 2500, "thorough": 300000},
+        "budget_s": {"quick": 200, "thorough": 3300},
+        "rule": "one scenario = 2-3 (history: up to 20) scripted sessions with distinct client addresses and session-unique tags on one instance of ldap/ftp/smtp/telnet/redis/memcached/http/tftp, interleaved at request/response granularity by the choice tape (thorough enumerates the tape systematically for a third of the runs) or run strictly one after the other, optionally one session reset mid-dialogue or idling while the others finish; every session is then re-run alone on a fresh server; distinct = distinct trace digest; non-trivial = at least two sessions",
+        "components": comp(real=["services ldap, ftp, smtp, telnet, redis, memcached, http, tftp (one Servicer instance shared by all connections, as in production)"]),
+        "assumptions": ["interleaving granularity = one command per scheduler step", "FTP transcripts are compared as line multisets (FEAT lists extensions in Go map order)"],
+    },
 }
 
 def get(prop):
